@@ -100,6 +100,9 @@ pub struct Held {
 	pub target: TargetRef,
 	pub read: bool,
 	pub flat: Flat,
+	/// model poison states at the moment of the acquisition: the Ok/Err inside
+	/// a guard is decided when the guard is made, not when it is looked at
+	pub pois_snapshot: HashMap<WrapId, PState>,
 }
 
 pub struct ThreadCtx {
@@ -248,6 +251,7 @@ struct SectionInfo<'a> {
 	read: bool,
 	flat: &'a Flat,
 	scoped: bool,
+	snapshot: Option<&'a HashMap<WrapId, PState>>,
 }
 
 /// Visit the section's leaves and run the C02 / C10 per-position oracles.
@@ -336,7 +340,7 @@ fn touch(env: &Env, tid: Tid, sec: &SectionInfo<'_>, leaves: &mut dyn Leaves) {
 			);
 		} else {
 			for (b, w) in pois.iter().zip(pos.wraps.iter()) {
-				check_poison_obs(env, tid, w, *b, "member-result");
+				check_poison_obs_at(env, tid, w, *b, "member-result", sec.snapshot);
 			}
 		}
 		i += 1;
@@ -352,7 +356,21 @@ fn touch(env: &Env, tid: Tid, sec: &SectionInfo<'_>, leaves: &mut dyn Leaves) {
 }
 
 fn check_poison_obs(env: &Env, tid: Tid, w: &WrapId, observed_err: bool, how: &str) {
-	let st = env.sh().poison.get(w).cloned().unwrap_or(PState::Clean);
+	check_poison_obs_at(env, tid, w, observed_err, how, None)
+}
+
+fn check_poison_obs_at(
+	env: &Env,
+	tid: Tid,
+	w: &WrapId,
+	observed_err: bool,
+	how: &str,
+	snapshot: Option<&HashMap<WrapId, PState>>,
+) {
+	let st = match snapshot {
+		Some(m) => m.get(w).cloned().unwrap_or(PState::Clean),
+		None => env.sh().poison.get(w).cloned().unwrap_or(PState::Clean),
+	};
 	match st {
 		PState::Clean => {
 			if observed_err {
@@ -365,6 +383,7 @@ fn check_poison_obs(env: &Env, tid: Tid, w: &WrapId, observed_err: bool, how: &s
 			}
 		}
 		PState::Poisoned(cause) => {
+			env.label("poison_observed_after_panic");
 			if !observed_err {
 				env.finding(
 					"C10",
@@ -380,11 +399,29 @@ fn check_poison_obs(env: &Env, tid: Tid, w: &WrapId, observed_err: bool, how: &s
 
 /// model update for a panic inside a section
 fn model_panic(env: &Env, sec: &SectionInfo<'_>) {
-	let cause = format!("{}:{}", if sec.scoped { "scoped" } else { "guard" }, kind_name(env, sec.target));
+	let kind = kind_name(env, sec.target);
+	// a scoped call of a Poisonable poisons that wrapper in its unwind handler
+	// ("own"); every other wrapper reached through the closure argument is
+	// "inner".  Through guards every wrapper has its own PoisonRef.
+	let own = own_wrappers(env, sec.target).first().cloned();
 	let mut sh = env.sh();
-	// the target's own outermost wrapper (if it is a Poisonable) is position-independent
-	for pos in &sec.flat.pos {
+	// the target's own wrappers count even when it has no leaf at all
+	let mut own_all = own_wrappers(env, sec.target);
+	if !sec.scoped {
+		// through a guard every reachable wrapper has a PoisonRef, also the leafless ones
+		own_all = sec.flat.wrap_set.clone();
+	}
+	let own_pos = Pos { leaf: 0, ty: LeafTy::R, wraps: own_all, group: u32::MAX };
+	for pos in sec.flat.pos.iter().chain(std::iter::once(&own_pos)) {
 		for w in &pos.wraps {
+			let role = if !sec.scoped {
+				"guard"
+			} else if Some(w) == own.as_ref() {
+				"scoped-own"
+			} else {
+				"scoped-inner"
+			};
+			let cause = format!("{role}|{kind}");
 			let cur = sh.poison.get(w).cloned().unwrap_or(PState::Clean);
 			let new = if sec.read {
 				match cur {
@@ -394,7 +431,7 @@ fn model_panic(env: &Env, sec: &SectionInfo<'_>) {
 			} else {
 				match cur {
 					PState::Poisoned(c) => PState::Poisoned(c),
-					_ => PState::Poisoned(cause.clone()),
+					_ => PState::Poisoned(cause),
 				}
 			};
 			sh.poison.insert(w.clone(), new);
@@ -864,11 +901,23 @@ fn step_acquire(env: &Env, ctx: &mut ThreadCtx, target: TargetRef, read: bool, t
 			if !try_ {
 				record_acq_order(env, tid, t0, target, read);
 			}
-			let mut h = Held { g, target, read, flat };
+			let pois_snapshot = env.sh().poison.clone();
+			let mut h = Held { g, target, read, flat, pois_snapshot };
 			// top-level poison status
 			if let Some(b) = h.g.top_poisoned() {
 				if let Some(w) = own_wrappers(env, target).first() {
 					check_poison_obs(env, tid, w, b, "acquire-result");
+				}
+				if b {
+					env.label("poisoned_acquire");
+					if !held_matches(&held, &h.flat, read) {
+						env.finding(
+							"C10",
+							tid,
+							format!("poisoned-acquire-not-holding|{what}"),
+							format!("{what} returned a poison error whose guard does not hold the lock: held = {}", fmt_held(&held)),
+						);
+					}
 				}
 			}
 			let _ = &mut h;
@@ -950,7 +999,8 @@ fn step_guard_ops(env: &Env, ctx: &mut ThreadCtx, ops: &[BodyOp]) -> bool {
 	if !has_panic {
 		let h = ctx.guard.as_mut().unwrap();
 		let flat = h.flat.clone();
-		let sec = SectionInfo { target: h.target, read: h.read, flat: &flat, scoped: false };
+		let snap = h.pois_snapshot.clone();
+		let sec = SectionInfo { target: h.target, read: h.read, flat: &flat, scoped: false, snapshot: Some(&snap) };
 		// DebugGuard needs shared access to the guard while Touch needs &mut:
 		// run op by op
 		for op in ops {
@@ -972,13 +1022,14 @@ fn step_guard_ops(env: &Env, ctx: &mut ThreadCtx, ops: &[BodyOp]) -> bool {
 	// the guard is moved into the panicking closure and dropped by the unwinding
 	let mut h = ctx.guard.take().unwrap();
 	let flat = h.flat.clone();
+	let snap = h.pois_snapshot.clone();
 	let target = h.target;
 	let read = h.read;
 	let t0 = env.exec.trace_len();
 	let expect: Vec<(Lid, bool)> = flat.pos.iter().map(|p| (p.leaf, read)).collect();
 	env.exec.begin_call(tid, CallKind::Release, "panic with guard alive");
 	let r = catch_unwind(AssertUnwindSafe(move || {
-		let sec = SectionInfo { target, read, flat: &flat, scoped: false };
+		let sec = SectionInfo { target, read, flat: &flat, scoped: false, snapshot: Some(&snap) };
 		for op in ops {
 			match op {
 				BodyOp::DebugGuard => {
@@ -1142,7 +1193,7 @@ fn step_scoped(
 	let n0 = env.exec.notices().len();
 	let t0 = env.exec.trace_len();
 	let invocations = std::cell::Cell::new(0u32);
-	let sec = SectionInfo { target, read, flat: &flat, scoped: true };
+	let sec = SectionInfo { target, read, flat: &flat, scoped: true, snapshot: None };
 	let has_panic = body.iter().any(|o| matches!(o, BodyOp::Panic));
 	let mut owned: Option<ThreadKey> = if owned_key { ctx.key.take() } else { None };
 	let frame = env.exec.begin_call(tid, acquire_frame_kind(try_), &what);
@@ -1219,6 +1270,14 @@ fn step_scoped(
 					tid,
 					format!("key-back-while-holding|{what}"),
 					format!("{what} returned (key usable again) while the caller still holds {}", fmt_held(&held)),
+				);
+			}
+			if has_panic && invocations.get() >= 1 && !env.exec.is_abort() {
+				env.finding(
+					"C11",
+					tid,
+					format!("panic-swallowed|{what}"),
+					format!("the closure of {what} panicked but the call returned normally"),
 				);
 			}
 			match res {
